@@ -256,3 +256,15 @@ def sha1hex(b):
 def sha256hex(b):
     import hashlib
     return hashlib.sha256(bytes(b)).hexdigest()
+
+
+@native
+def pathjoin(a, b):
+    import os
+    return os.path.join(a, b)
+
+
+@native
+def dirname(a):
+    import os
+    return os.path.dirname(a)
